@@ -341,7 +341,8 @@ def _rejects_and_event(st, out, w, rel, real_tree, same_shape, want_event, want_
         expected = {EXC[rj["err"]]}
         try:
             res = w.call(c, rel)
-            V(["C20", "C03"], "a request the specification refuses returned a relation", request=c, expected=sorted(expected), returned=str(res))
+            V(["C20", "C03"] + (["C14"] if rj["err"] == "EngineError" else []),
+              "a request the specification refuses returned a relation", request=c, expected=sorted(expected), returned=str(res))
         except Exception as exc:  # noqa: BLE001
             if type(exc).__name__ not in expected:
                 props = ["C20"]
